@@ -597,10 +597,14 @@ impl Engine for C10 {
                 _ => {
                     // target without a bounding box
                     let id0 = nodes[0].id.clone();
-                    let xml = match w.below(3) {
+                    let xml = match w.below(6) {
                         0 => format!("<g id=\"{id0}\"/>"),
                         1 => format!("<g id=\"{id0}\"></g>"),
-                        _ => format!("<defs id=\"{id0}\"><rect wh=\"2\"/></defs>"),
+                        2 => format!("<defs id=\"{id0}\"><rect wh=\"2\"/></defs>"),
+                        // shapes without a size have no extent either
+                        3 => format!("<rect id=\"{id0}\" x=\"30\" y=\"30\"/>"),
+                        4 => format!("<circle id=\"{id0}\" cx=\"3\" cy=\"4\"/>"),
+                        _ => format!("<ellipse id=\"{id0}\" cx=\"3\" cy=\"4\" rx=\"2\"/>"),
                     };
                     nodes[0] = NodeSpec {
                         id: id0.clone(),
@@ -614,7 +618,19 @@ impl Engine for C10 {
                     nodes[i] = NodeSpec {
                         id: id.clone(),
                         kind: "rel-to-no-bbox".into(),
-                        xml: format!("<rect id=\"{id}\" xy=\"#{id0}|h\" width=\"3\" height=\"3\"/>"),
+                        xml: {
+                            // another, perfectly good, element to go with it where a list is taken
+                            let good = if nn >= 3 { nodes[1].id.clone() } else { id0.clone() };
+                            match w.below(7) {
+                                0 => format!("<rect id=\"{id}\" xy=\"#{id0}|h\" width=\"3\" height=\"3\"/>"),
+                                1 => format!("<rect id=\"{id}\" surround=\"#{good} #{id0}\" margin=\"1\"/>"),
+                                2 => format!("<rect id=\"{id}\" surround=\"#{id0}\"/>"),
+                                3 => format!("<rect id=\"{id}\" inside=\"#{id0}\"/>"),
+                                4 => format!("<line id=\"{id}\" start=\"#{good}\" end=\"#{id0}\"/>"),
+                                5 => format!("<rect id=\"{id}\" x=\"#{id0}~x2\" y=\"1\" wh=\"2\"/>"),
+                                _ => format!("<rect id=\"{id}\" xy=\"1 1\" width=\"{{{{#{id0}~w + 1}}}}\" height=\"2\"/>"),
+                            }
+                        },
                         deps: vec![0],
                     };
                     unsat = Some("no-bbox-target".to_string());
